@@ -446,7 +446,11 @@ func (v *ClientView) decodePayload(codec, comp string, fr Frame, compressed bool
 			v.Msgs = append(v.Msgs, nil)
 			return
 		}
-		d, err := decompressBytes(comp, p)
+		inflate := decompressBytes
+		if fr.InBand {
+			inflate = decompressFrame
+		}
+		d, err := inflate(comp, p)
 		if err != nil {
 			v.problem("frame flagged compressed does not inflate with %s: %v", comp, err)
 			v.Payloads = append(v.Payloads, nil)
@@ -547,7 +551,7 @@ func parseGRPCFamily(v *ClientView, form string, sc *Scenario, outType string, h
 		if trailerFrame != nil {
 			p := trailerFrame.Payload
 			if trailerFrame.Flags&1 != 0 {
-				d, err := decompressBytes(comp, p)
+				d, err := decompressFrame(comp, p)
 				if err != nil {
 					v.problem("compressed trailer frame does not inflate: %v", err)
 				}
@@ -675,7 +679,7 @@ func parseConnectStream(v *ClientView, sc *Scenario, outType string, head http.H
 			v.Ends++
 			p := fr.Payload
 			if fr.Flags&1 != 0 {
-				d, err := decompressBytes(comp, p)
+				d, err := decompressFrame(comp, p)
 				if err != nil {
 					v.problem("compressed end-stream frame does not inflate: %v", err)
 				}
